@@ -74,6 +74,12 @@ impl AsyncCoreExt {
         self.rt.shutdown();
     }
 
+    /// Takes the runtime, and with it every task that is still pending,
+    /// out of the module. Dropping the returned value drops the tasks.
+    pub(crate) fn take_runtime(&mut self) -> Rt {
+        std::mem::replace(&mut self.rt, Rt::Shutdown)
+    }
+
     pub(crate) fn reset(&mut self) {
         self.rt = Rt::Runtime((
             Arc::new(
